@@ -439,6 +439,12 @@ class SInt:
     __gt__ = _num_cmp(lambda a, b: a > b)
     __ge__ = _num_cmp(lambda a, b: a >= b)
 
+    def __divmod__(self, o):
+        return self // o, self % o
+
+    def __rdivmod__(self, o):
+        return o // self, o % self
+
     def __eq__(self, o):
         try:
             b = zn(o)
